@@ -55,3 +55,23 @@ Proof. vm_compute. split; reflexivity. Qed.
 
 (* every remaining property theorem of this file *)
 Print Assumptions C16_delete_limits.
+
+(* which transactions are served on the READ path (regattapb.TxnRequest.IsReadonly): exactly those whose two branches
+   hold nothing but range reads - an operation with an empty oneof, a put or a delete always goes through a proposal,
+   where ActiveTable.Txn validates it; the read path creates no record *)
+Theorem C16_read_path_only_ranges : forall succ fail : list txn_op, is_readonly succ fail = true ->
+  forall o, In o (succ ++ fail) -> exists k e, o = TRange k e.
+Proof. exact readonly_only_ranges. Qed.
+Theorem C16_read_path_never_sees_an_empty_operation : forall succ fail : list txn_op,
+  is_readonly succ fail = true -> ~ In TUnset (succ ++ fail).
+Proof. exact readonly_no_unset. Qed.
+Theorem C16_read_path_creates_nothing : forall succ fail : list txn_op,
+  is_readonly succ fail = true -> flat_map creates (succ ++ fail) = [].
+Proof. exact readonly_creates_nothing. Qed.
+Theorem C16_write_path_for_everything_else : forall succ fail : list txn_op, is_readonly succ fail = false ->
+  exists o, In o (succ ++ fail) /\ is_range o = false.
+Proof. exact not_readonly_has_other. Qed.
+Print Assumptions C16_read_path_only_ranges.
+Print Assumptions C16_read_path_never_sees_an_empty_operation.
+Print Assumptions C16_read_path_creates_nothing.
+Print Assumptions C16_write_path_for_everything_else.
